@@ -259,6 +259,7 @@ def update_block(policies):
     for p in policies:
         P = POLICIES[p]
         src.append("auto upd_%s() { return update<%s>(); }" % (p, P))
+        src.append("void clr_%s() { %s::classes.clear(); %s::methods.clear(); }" % (p, P, P))
         if p not in ("p_def", "p_proj"):
             src.append("void gen_%s(std::ostream& os) { auto c = update<%s>(); generator g; g.write_static_offsets<%s>(os); generator::encode_dispatch_data(c, os); }" % (p, P, P))
             src.append("void dec_%s(DD& d) { decode_dispatch_data<%s>(d); }" % (p, P))
